@@ -129,7 +129,7 @@ pub fn run(ctx: &Ctx) -> Report {
     let robots: Vec<Parameters> = if thorough {
         all_r.iter().step_by(5).cloned().collect()
     } else {
-        vec![all_r[1], all_r[9], all_r[all_r.len() / 2 + 3]]
+        vec![all_r[1], all_r[9], all_r[16], all_r[27], all_r[all_r.len() / 2 + 3], all_r[all_r.len() - 2]]
     };
     let thetas: Vec<[f64; 6]> = if thorough {
         vec![[0.4, -0.9, -1.9, 0.3, 0.6, 0.2], [-2.4, 0.5, 0.8, -1.3, -1.2, 2.5], [3.0, 1.3, 2.6, 2.9, 2.2, -3.0]]
